@@ -24,3 +24,44 @@ def classify(pid, rec):
         if m and m(rec, f):
             return f
     return None
+
+
+@matcher("trrel_uf_inscc_same_class")
+def _trrel_uf_inscc(rec, f):
+    """F5a: inside its recursive SCC a trrel_uf relation does not expose the pairs (x, y) whose two elements belong to
+    the same class of the closure (x = y included): the delta is a set of connections between DIFFERENT classes.
+    Matches only: program of the trrel_uf family, a wrong-result of an in-SCC reader relation (name i...), nothing
+    extra, and every missing tuple (k.., x, y) has (x, y) and (y, x) both in the specified closure of its key."""
+    case = rec.get("case", {})
+    if not case.get("prog", "").startswith("trrel_uf") or rec.get("kind") != "wrong-result":
+        return False
+    d = rec.get("detail", {})
+    rel = d.get("rel", "")
+    if not rel.startswith("i") or d.get("extra"):
+        return False
+    lm = rec.get("specified_least_model", {})
+    closure = lm.get("off") if "off" in lm else lm.get("o000")
+    if closure is None:
+        return False
+    cl = {tuple(t) for t in closure}
+    for t in d.get("missing", []):
+        t = tuple(t)
+        swapped = t[:-2] + (t[-1], t[-2])
+        if t not in cl or swapped not in cl:
+            return False
+    return bool(d.get("missing"))
+
+
+@matcher("trrel_uf_tern_reflexive_reverse_map")
+def _trrel_uf_tern_reflexive(rec, f):
+    """F16: ternary trrel_uf read with column 1 and/or 2 bound but not column 0 (the adaptor's reverse maps): the
+    reflexive pair (k, x, x) of an element that never occurred in that column position of an inserted tuple is not
+    found. Matches only reflexive missing tuples of the readers i/o 010, 001, 011 of the ternary trrel_uf program."""
+    case = rec.get("case", {})
+    if case.get("prog") != "trrel_uf_tern" or rec.get("kind") != "wrong-result":
+        return False
+    d = rec.get("detail", {})
+    if d.get("rel") not in ("i010", "i001", "i011", "o010", "o001", "o011") or d.get("extra"):
+        return False
+    miss = d.get("missing", [])
+    return bool(miss) and all(t[-1] == t[-2] for t in miss)
